@@ -127,6 +127,14 @@ def slices : List Rat → List (List Rat) → List (Rat × List Rat)
   | a :: b :: rest, rows => (b - a, rows.map (fun r => r.headD 0)) :: slices (b :: rest) (rows.map List.tail)
   | _, _ => []
 
+/-! ## `_fill_coeff`, cubic branch: which interpolant -/
+
+/-- `CubicSpline(old_tlist, old_coeffs)` with the default not-a-knot boundary condition is the interpolating
+spline of this degree through `n` samples (a line for 2, the parabola for 3, a not-a-knot cubic spline from 4 on;
+`ValueError` for fewer than 2 samples).  QuTiP's order-3 coefficient reduces its order in the same way, so the
+resampled coefficients and the function the solver integrates coincide.  Numerics themselves are not modelled. -/
+def splineDegree (n : Nat) : Option Nat := if n < 2 then none else some (min 3 (n - 1))
+
 /-! ## The step function of a channel (specification object) -/
 
 /-- value of the slot of `tl` containing `t`: `cs[i]` for `tl[i] ≤ t < tl[i+1]`, `0` before the first
